@@ -78,7 +78,12 @@ impl ShardingPartialDecoder {
                 usize::try_from(ravel_indices(chunk_indices, &chunks_per_shard) * 2).unwrap();
             let offset = shard_index[shard_index_idx];
             let size = shard_index[shard_index_idx + 1];
-            Ok(Some(ByteRange::new(offset..offset + size)))
+            if offset == u64::MAX && size == u64::MAX {
+                // An inner chunk that is not stored
+                Ok(None)
+            } else {
+                Ok(Some(ByteRange::FromStart(offset, Some(size))))
+            }
         } else {
             Ok(None)
         }
